@@ -126,6 +126,14 @@ func scalarDtypeCheck(a Tensor, b interface{}) error {
 // useIter indicates that the iterator methods should be used.
 // swap indicates that the operands are swapped.
 func prepDataVV(a, b Tensor, reuse Tensor) (dataA, dataB, dataReuse *storage.Header, ait, bit, iit Iterator, useIter, swap bool, err error) {
+	// the result is built up in reuse, starting from a copy of a. If reuse is the
+	// second operand that copy would destroy b before it is read: work from a copy of b.
+	if reuse != nil && reuse.Uintptr() == b.Uintptr() && reuse.Uintptr() != a.Uintptr() {
+		if bc, ok := b.Clone().(Tensor); ok {
+			b = bc
+		}
+	}
+
 	// get data
 	dataA = a.hdr()
 	dataB = b.hdr()
